@@ -138,6 +138,40 @@ func PHPSoup(t *rapid.T, n int) []byte {
 	return append([]byte(open), Soup(t, n)...)
 }
 
+// interpDict: the pieces of PHP's "simple" and "complex" interpolation syntax, the literal forms that
+// may follow "[" or "[-" (decimal, octal-looking, hex, binary, separated, overflowing), and the bytes the
+// offset scanner reports and skips.
+var interpDict = []string{
+	"$v", "$v", "$a", "$v[", "$v[-", "[", "[-", "-", "]", "0", "1", "12", "012", "0x1F", "0b11", "1_000", "99999999999999999999", "-0", "1.5", "1e3",
+	"k", "'k'", "\"k\"", "$k", "$k]", "->", "->p", "->p->q", "->p[0]", "{$", "{$v", "{$v}", "{$v->p[1]}", "${", "${v", "${v}", "${v[1]}", "${v[", "}", "{",
+	"`", "\"", "'", "\\", "\\$", "\\{", " ", "\n", "\r\n", "\t", "#", "\x00", "\x01", "\x7f", "\x80", "\xff", "?>", "<?php", "::", "(", ")", ",", ";", "$", "$$", "$1", "text", "A",
+}
+
+// InterpSoup draws a string-like construct (double quotes, backquotes, heredoc, or none) whose body is
+// 1..10 pieces of interpDict, behind an open tag and usually closed again.
+func InterpSoup(t *rapid.T) []byte {
+	open, cls := "\"", "\";"
+	switch rapid.IntRange(0, 5).Draw(t, "ctx") {
+	case 0:
+		open, cls = "`", "`;"
+	case 1:
+		open, cls = "<<<A\n", "\nA;\n"
+	case 2:
+		open, cls = "<<<\"A\"\n  ", "\n  A;\n"
+	case 3:
+		open, cls = "b\"", "\""
+	}
+	b := []byte(rapid.SampledFrom([]string{"<?php ", "<?php $x = ", "<?= ", "<?php f("}).Draw(t, "open") + open)
+	n := rapid.IntRange(1, 10).Draw(t, "pieces")
+	for i := 0; i < n; i++ {
+		b = append(b, rapid.SampledFrom(interpDict).Draw(t, "piece")...)
+	}
+	if rapid.IntRange(0, 4).Draw(t, "closed") != 0 {
+		b = append(b, cls...)
+	}
+	return b
+}
+
 // Seed draws a corpus snippet.
 func Seed(t *rapid.T) []byte {
 	c := Corpus()
@@ -248,7 +282,9 @@ func Any(t *rapid.T) ([]byte, string) {
 	case 1:
 		return LongLexemes(t), "long-lexemes"
 	}
-	switch rapid.IntRange(0, 5).Draw(t, "source") {
+	switch rapid.IntRange(0, 6).Draw(t, "source") {
+	case 6:
+		return InterpSoup(t), "interpolation-soup"
 	case 0:
 		return Seed(t), "corpus"
 	case 1:
